@@ -536,7 +536,9 @@ class C13(PropertyCheck, BayesMixin, SegMixin, MiscMixin):
         mut = snap.changed()
         cc = float(np.exp(2.0 / d * np.log(k)))
         line = (f"mstep {pt} {n} {d} {k} {fr(cc)} {fr(0.01)} {fr(TINY_GMM)} {_mat(x)} {_mat(like)}")
-        impl = ("sections", [W.tolist(), M.ravel().tolist(), C.ravel().tolist()], 1e-6)
+        # floors: the means / covariances are sums of terms of size |x| / |x|^2 that may cancel to (nearly) zero
+        xm = float(np.abs(x).max()) if x.size else 0.0
+        impl = ("sections", [W.tolist(), M.ravel().tolist(), C.ravel().tolist()], 1e-6, [0.0, xm, xm * xm])
         fail = None
         if not (np.all(np.isfinite(W)) and np.all(np.isfinite(M)) and np.all(np.isfinite(C))):
             fail = "_Mstep produced non-finite parameters"
